@@ -214,18 +214,35 @@ func (u *controlUnit) shouldUseForwarding(runner *risc.InstructionRunnerPc, haza
 		return false, nil, risc.Zero
 	}
 
+	// With renaming, several in-flight instructions may write the register:
+	// the value has to come from the youngest of them. If it was pushed in the
+	// current cycle, it can't forward yet
+	for currentRunner := range u.pushedRunnersInCurrentCycle {
+		for _, writeRegister := range currentRunner.Runner.WriteRegisters() {
+			if writeRegister == hazards[0].Register {
+				return false, nil, risc.Zero
+			}
+		}
+	}
+
 	// Can we use forwarding with an instruction pushed in the previous cycle
+	var producer *risc.InstructionRunnerPc
+	var register risc.RegisterType
 	for previousRunner := range u.pushedRunnersInPreviousCycle {
 		for _, writeRegister := range previousRunner.Runner.WriteRegisters() {
 			for _, readRegister := range runner.Runner.ReadRegisters() {
 				if readRegister == risc.Zero {
 					continue
 				}
-				if readRegister == writeRegister {
-					return true, previousRunner, readRegister
+				if readRegister == writeRegister && (producer == nil || previousRunner.SequenceID > producer.SequenceID) {
+					producer = previousRunner
+					register = readRegister
 				}
 			}
 		}
+	}
+	if producer != nil {
+		return true, producer, register
 	}
 	return false, nil, risc.Zero
 }
